@@ -214,6 +214,65 @@ def run_real(order, method, edges):
     return got == REAL_EXPECT[method] and obs["extends"] == ["B", "C"] and call.instance.type is a, obs
 
 
+SHAPE_GRAMMAR = REAL_GRAMMAR.replace("':' type=[Class];", "(':' type=[Class])?;")
+SHAPES = {
+    # a cycle of 'extends' references: the walk over the base classes must end
+    "cyclic-extends": (["class A extends B { m h }", "class B extends A { m f }", "inst i : A"], {"h": "A", "f": "B", "zz": None}),
+    "self-extends": (["class A extends A { m h }", "class B { m f }", "inst i : A"], {"h": "A", "f": None}),
+    # the optional reference on the provider's path is absent: nothing can be proposed, the name is unknown
+    "absent-type": (["class A { m h }", "inst i", "inst k : A"], {"h": None}),
+}
+
+
+def run_shape(shape, order, method, provider):
+    from textx import metamodel_from_str
+    from textx.exceptions import TextXSemanticError
+    from textx.scoping.providers import ExtRelativeName, RelativeName
+
+    assert SHAPE_GRAMMAR != REAL_GRAMMAR
+    if "shape" not in _S:
+        _S["shape"] = metamodel_from_str(SHAPE_GRAMMAR)
+    mm = _S["shape"]
+    mm.register_scope_providers({"Call.method": ExtRelativeName("instance.type", "methods", "extends") if provider == "ExtRelativeName"
+                                 else RelativeName("instance.type.methods")})
+    stmts, expect = SHAPES[shape]
+    stmts = stmts + ["call i . %s" % method]
+    text = "\n".join(stmts[i] for i in order)
+    exp = expect[method]
+    if provider == "RelativeName" and exp not in (None, "A"):
+        exp = None  # RelativeName does not follow 'extends'
+    line = [stmts[i] for i in order].index(stmts[-1]) + 1
+    obs = {"shape": shape, "provider": provider, "model": text, "expected_class_of_method": exp}
+    try:
+        m = mm.model_from_str(text)
+    except TextXSemanticError as e:
+        obs["outcome"] = "error"
+        obs["message"] = "%s (line %s col %s)" % (e.message[:80], e.line, e.col)
+        return exp is None and e.message.startswith("Unknown object") and (e.line, e.col) == (line, 10), obs
+    except BaseException as e:
+        obs["outcome"] = "other error %s: %s" % (type(e).__name__, str(e)[:100])
+        return False, obs
+    obs["outcome"] = "success"
+    call = next(x for x in m.stmts if type(x).__name__ == "Call")
+    obs["class_of_method"] = call.method.parent.name
+    return obs["class_of_method"] == exp, obs
+
+
+def work_shape(arg):
+    u = Unit()
+    for shape, order, method, provider in arg:
+        cid = ["provider-shape", shape, list(order), method, provider]
+        with watchdog(10):
+            ok, obs = run_shape(shape, order, method, provider)
+        u.case(cid, nontrivial=True, sample=obs if list(order) == [3, 2, 1, 0] else None)
+        u.count("provider-shape outcome:" + obs["outcome"].split(" ")[0])
+        u.transitions += 1
+        if not ok:
+            u.fail(cid, {"shape": shape, "order": list(order), "method": method, "provider": provider}, sig="shape %s %s %s" % (shape, provider, obs["outcome"][:25]),
+                   what=repr(obs)[:500])
+    return u
+
+
 def work_real(arg):
     cases = arg
     u = Unit()
@@ -275,6 +334,9 @@ def run(ctx):
     ctx.pmap(work, units)
     real = [(order, meth, edges) for order in itertools.permutations(range(5)) for meth in REAL_EXPECT for edges in real_deps()]
     ctx.pmap(work_real, [real[i:i + 200] for i in range(0, len(real), 200)])
+    shapes = [(sh, order, method, prov) for sh, (st, expect) in SHAPES.items() for order in itertools.permutations(range(4)) for method in expect
+              for prov in ("ExtRelativeName", "RelativeName")]
+    ctx.pmap(work_shape, [shapes[i:i + 48] for i in range(0, len(shapes), 48)])
     ctx.states = ctx.evaluations
     return {
         "rule": "case = (n, dependency digraph, never-set, set of references placed in the imported file); all labelled digraphs without "
@@ -289,6 +351,8 @@ def run(ctx):
 
 
 def replay(p):
+    if "shape" in p:
+        return run_shape(p["shape"], tuple(p["order"]), p["method"], p["provider"])
     if p.get("real"):
         return run_real(tuple(p["order"]), p["method"], tuple(tuple(e) for e in p["edges"]))
     return run_case(p["n"], p["dbits"], p["never_mask"], p["place_mask"])
